@@ -44,9 +44,9 @@ Notation DenT t := (Den (fNt t) (fPt t) (fDt t) (KNt t) (KPt t) (KDt t)).
 Record J (t : tenc) (ss : sstate) : Prop := {
   j_n : InvT (t_names t) (s_names ss) (s_la_n ss);
   j_wn : Wk (t_names t) (t_nkeys t);
-  j_p : (lmax (t_prefixes t) = 0 /\ e_last_reused (t_prefixes t) = 0) \/
+  j_p : (lmax (t_prefixes t) = 0 /\ e_last_reused (t_prefixes t) = 0 /\ l_data (e_lookup (t_prefixes t)) = []) \/
         (InvT (t_prefixes t) (s_prefixes ss) (s_la_p ss) /\ Wk (t_prefixes t) (t_pkeys t));
-  j_d : lmax (t_datatypes t) = 0 \/
+  j_d : (lmax (t_datatypes t) = 0 /\ l_data (e_lookup (t_datatypes t)) = []) \/
         (InvT (t_datatypes t) (s_datatypes ss) (s_la_d ss) /\ Wk (t_datatypes t) (t_dkeys t)) }.
 
 (* entry rows change only tables and last-assigned ids of the referee *)
@@ -113,7 +113,7 @@ Proof.
   (* prefix entry *)
   destruct (lmax (t_prefixes t) =? 0) eqn:Ep0.
   - (* prefix table disabled: the whole IRI is the name *)
-    apply N.eqb_eq in Ep0. destruct Jp as [[_ Hlr0]|[Hinv _]]; [|destruct Hinv as [Hpos _ _ _ _ _ _ _ _ _]; unfold lmax in Ep0; cbn in Hpos; lia].
+    apply N.eqb_eq in Ep0. destruct Jp as [[_ [Hlr0 Hemp0]]|[Hinv _]]; [|destruct Hinv as [Hpos _ _ _ _ _ _ _ _ _]; unfold lmax in Ep0; cbn in Hpos; lia].
     destruct (entry_index (t_names t) (t_nkeys t) iri) as [[[nms nkeys] ne]|e] eqn:En; [|discriminate].
     destruct (entry_index_spec _ _ _ _ _ _ _ _ Jn Jwn En) as (Hent & Wn1 & Hkeys & Hst & Hmax & Hlr).
     unfold encode_prefix_term_index. replace (l_max (e_lookup (t_prefixes t)) =? 0) with true by (symmetry; apply N.eqb_eq; exact Ep0).
@@ -137,7 +137,7 @@ Proof.
     + refine {| j_n := _; j_wn := _; j_p := _; j_d := _ |}; cbn.
       * exact Hinv2.
       * exact Wn2.
-      * left. split; [exact Ep0|exact Hlr0].
+      * left. split; [exact Ep0|split; [exact Hlr0|exact Hemp0]].
       * destruct Jd as [Jd|[Jd1 Jd2]]; [now left|right]. rewrite Hd1, Hld1. auto.
     + (* denotation: prefix part empty, name = whole IRI *)
       unfold Lt; cbn. rewrite Hlr0, Hlr2.
@@ -269,4 +269,124 @@ Proof.
         -- congruence.
         -- congruence.
         -- reflexivity.
+Qed.
+
+(* ---- one literal ---- *)
+Theorem encode_literal_valid (lex : str) (lang dt : option str) (t t' : tenc) (rows : list row) (w : wterm) (ss : sstate) :
+  J t ss -> encode_literal lex lang dt t = Ok (t', rows, w) ->
+  exists ss1, steps rows ss = SOk (ss1, []) /\ J t' ss1 /\ nontab_eq ss ss1 /\
+              DenT t' (Lt t) w (norm (TLit lex lang dt)) (Lt t') /\ Stable t t' /\ w <> WDefault.
+Proof.
+  intros HJ. pose proof HJ as [Jn Jwn Jp Jd]. unfold encode_literal, bind. cbn [norm].
+  destruct (truthy dt) as [d|] eqn:Edt.
+  - destruct (str_eqb d xsd_string) eqn:Exs.
+    + (* xsd:string: written as a plain or language-tagged literal *)
+      cbn. intros H; inversion H; subst t' rows w; clear H.
+      exists ss. split; [reflexivity|]. split; [exact HJ|]. split; [apply nontab_refl|]. split; [|split; [apply stable_refl|discriminate]].
+      destruct (truthy lang) as [l|] eqn:El.
+      * apply DLitLang. unfold truthy in El. destruct lang as [l0|]; [|discriminate]. destruct (is_nil l0) eqn:E; [discriminate|]. inversion El; subst. exact E.
+      * apply DLitPlain.
+    + destruct (lmax (t_datatypes t) =? 0) eqn:Ed0; [discriminate|]. apply N.eqb_neq in Ed0.
+      destruct Jd as [[Hz _]|[Jd Jwd]]; [contradiction|].
+      destruct (entry_index (t_datatypes t) (t_dkeys t) d) as [[[dts dkeys] oe]|e] eqn:Ee; [|discriminate]. cbn [bind].
+      destruct (entry_index_spec _ _ _ _ _ _ _ _ Jd Jwd Ee) as (Hent & Wd1 & Hkeys & Hst & Hmax & Hlr).
+      destruct (encode_datatype_term_index str_eqb d dts) as [[dts2 idx]|] eqn:Et; [|discriminate]. cbn [lift].
+      intros H.
+      unfold encode_datatype_term_index in Et.
+      assert (Hmax' : (l_max (e_lookup dts) =? 0) = false) by (apply N.eqb_neq; unfold lmax in *; congruence).
+      rewrite Hmax' in Et.
+      assert (Hin : In d dkeys) by (rewrite Hkeys; apply set_add_spec; now left).
+      assert (Hrows : exists ss1, steps (match oe with Some id => [RDatatype id d] | None => [] end) ss = SOk (ss1, []) /\
+                       InvT dts (s_datatypes ss1) (s_la_d ss1) /\ nontab_eq ss ss1 /\
+                       s_names ss1 = s_names ss /\ s_la_n ss1 = s_la_n ss /\ s_prefixes ss1 = s_prefixes ss /\ s_la_p ss1 = s_la_p ss).
+      { destruct oe as [id|].
+        - destruct Hent as (T' & la' & He & Hi'). exists (upd_datatypes ss T' la').
+          split; [now apply steps_datatype_entry|]. split; [exact Hi'|]. split; [apply nontab_upd_datatypes|]. cbn. auto.
+        - exists ss. split; [reflexivity|]. split; [exact Hent|]. split; [apply nontab_refl|]. auto. }
+      destruct Hrows as (ss1 & Hsteps & Hinv1 & Hnt & Hn1 & Hln1 & Hp1 & Hlp1).
+      destruct (term_index_spec _ _ _ _ _ _ _ Hinv1 Wd1 Hin Et) as (Hinv2 & Wd2 & Hfind & Hfindall & Hmax2 & Hlr2 & Hla2).
+      destruct (live_entry_resolves _ _ _ _ _ Hinv1 Hfind) as [_ Hpos].
+      assert (Hnz : (idx =? 0) = false) by (apply N.eqb_neq; lia).
+      rewrite Hnz in H. cbn [negb] in H. injection H as Ht' Hrows' Hw. subst t' rows w.
+      exists ss1. split; [exact Hsteps|]. split; [|split; [exact Hnt|split; [|split; [|discriminate]]]].
+      * refine {| j_n := _; j_wn := _; j_p := _; j_d := _ |}; cbn.
+        -- rewrite Hn1, Hln1. exact Jn.
+        -- exact Jwn.
+        -- destruct Jp as [Jp|[Jp1 Jp2]]; [now left|right]. rewrite Hp1, Hlp1. auto.
+        -- right. split; [exact Hinv2|exact Wd2].
+      * unfold Lt; cbn. apply DLitDt; [lia|unfold KDt; cbn; exact Hin|unfold fDt; cbn; rewrite Hfindall; exact Hfind].
+      * refine {| st_n := _; st_kn := _; st_p := _; st_kp := _; st_d := _; st_kd := _; st_maxn := _; st_maxp := _; st_maxd := _ |};
+          unfold KNt, KPt, KDt, fNt, fPt, fDt; cbn.
+        -- reflexivity.
+        -- auto.
+        -- reflexivity.
+        -- auto.
+        -- intros k Hk. rewrite Hfindall. now apply Hst.
+        -- intros k Hk. rewrite Hkeys. apply set_add_spec. now right.
+        -- reflexivity.
+        -- reflexivity.
+        -- congruence.
+  - cbn. intros H; inversion H; subst t' rows w; clear H.
+    exists ss. split; [reflexivity|]. split; [exact HJ|]. split; [apply nontab_refl|]. split; [|split; [apply stable_refl|discriminate]].
+    destruct (truthy lang) as [l|] eqn:El.
+    + apply DLitLang. unfold truthy in El. destruct lang as [l0|]; [|discriminate]. destruct (is_nil l0) eqn:E; [discriminate|]. inversion El; subst. exact E.
+    + apply DLitPlain.
+Qed.
+
+(* ---- any term in an s/p/o position (generic integration: quoted triples included) ---- *)
+Theorem encode_spo_term_valid (tm : term) : forall (t t' : tenc) (rows : list row) (w : wterm) (ss : sstate),
+  J t ss -> encode_spo_term Generic tm t = Ok (t', rows, w) ->
+  exists ss1, steps rows ss = SOk (ss1, []) /\ J t' ss1 /\ nontab_eq ss ss1 /\
+              DenT t' (Lt t) w (norm tm) (Lt t') /\ Stable t t' /\ w <> WDefault.
+Proof.
+  induction tm as [iri|l|lex lang dt|a IHa b IHb c IHc| |]; intros t t' rows w ss HJ; cbn [encode_spo_term].
+  - unfold bind. destruct (encode_iri iri t) as [[[[t1 r1] p] n]|e] eqn:E; [|discriminate].
+    intros H; inversion H; subst t' rows w; clear H.
+    destruct (encode_iri_valid _ _ _ _ _ _ _ HJ E) as (ss1 & S1 & J1 & N1 & D1 & St1).
+    exists ss1. repeat (split; [assumption|]). discriminate.
+  - intros H; inversion H; subst t' rows w; clear H.
+    exists ss. split; [reflexivity|]. split; [exact HJ|]. split; [apply nontab_refl|]. split; [apply DBnode|]. split; [apply stable_refl|discriminate].
+  - apply encode_literal_valid; assumption.
+  - unfold bind.
+    destruct (encode_spo_term Generic a t) as [[[t1 r1] wa]|e] eqn:Ea; [|discriminate].
+    destruct (encode_spo_term Generic b t1) as [[[t2 r2] wb]|e] eqn:Eb; [|discriminate].
+    destruct (encode_spo_term Generic c t2) as [[[t3 r3] wc]|e] eqn:Ec; [|discriminate].
+    intros H; inversion H; subst t' rows w; clear H.
+    destruct (IHa _ _ _ _ _ HJ Ea) as (s1 & S1 & J1 & N1 & D1 & St1 & W1).
+    destruct (IHb _ _ _ _ _ J1 Eb) as (s2 & S2 & J2 & N2 & D2 & St2 & W2).
+    destruct (IHc _ _ _ _ _ J2 Ec) as (s3 & S3 & J3 & N3 & D3 & St3 & W3).
+    exists s3. split; [|split; [exact J3|split; [|split; [|split; [|discriminate]]]]].
+    + rewrite steps_app, S1, steps_app, S2, S3. reflexivity.
+    + eapply nontab_trans; [exact N1|]. eapply nontab_trans; eassumption.
+    + cbn [norm]. eapply DTriple; [| |exact D3|assumption|assumption|assumption].
+      * eapply DenT_stable; [|exact D1]. eapply stable_trans; eassumption.
+      * eapply DenT_stable; [|exact D2]. exact St3.
+    + eapply stable_trans; [exact St1|]. eapply stable_trans; eassumption.
+  - discriminate.
+  - discriminate.
+Qed.
+
+(* ---- a graph name ---- *)
+Theorem encode_graph_term_valid (tm : term) (t t' : tenc) (rows : list row) (w : wterm) (ss : sstate) :
+  J t ss -> encode_graph_term Generic tm t = Ok (t', rows, w) ->
+  exists ss1, steps rows ss = SOk (ss1, []) /\ J t' ss1 /\ nontab_eq ss ss1 /\
+              DenT t' (Lt t) w (norm tm) (Lt t') /\ Stable t t' /\ wf_pos true w.
+Proof.
+  intros HJ. destruct tm as [iri|l|lex lang dt|a b c| |]; cbn [encode_graph_term]; try discriminate.
+  - unfold bind. destruct (encode_iri iri t) as [[[[t1 r1] p] n]|e] eqn:E; [|discriminate].
+    intros H; inversion H; subst t' rows w; clear H.
+    destruct (encode_iri_valid _ _ _ _ _ _ _ HJ E) as (ss1 & S1 & J1 & N1 & D1 & St1).
+    exists ss1. repeat (split; [assumption|]). exact I.
+  - intros H; inversion H; subst t' rows w; clear H.
+    exists ss. split; [reflexivity|]. split; [exact HJ|]. split; [apply nontab_refl|]. split; [apply DBnode|]. split; [apply stable_refl|exact I].
+  - intros H. destruct (encode_literal_valid _ _ _ _ _ _ _ _ HJ H) as (ss1 & S1 & J1 & N1 & D1 & St1 & W1).
+    exists ss1. repeat (split; [assumption|]).
+    unfold encode_literal, bind in H. destruct w; try exact I.
+    (* encode_literal only builds WLit *)
+    exfalso. repeat match type of H with
+                    | match ?x with _ => _ end = _ => destruct x; try discriminate
+                    | (if ?c then _ else _) = _ => destruct c; try discriminate
+                    end; inversion H.
+  - intros H; inversion H; subst t' rows w; clear H.
+    exists ss. split; [reflexivity|]. split; [exact HJ|]. split; [apply nontab_refl|]. split; [apply DDefault|]. split; [apply stable_refl|exact I].
 Qed.
